@@ -19,8 +19,8 @@ import (
 type resolveLine struct {
 	T    []matchTableEntry `json:"t"`
 	Opts struct {
-		Hmna bool     `json:"hmna"`
-		Hfb  bool     `json:"hfb"`
+		Hmna   bool     `json:"hmna"`
+		Hfb    bool     `json:"hfb"`
 		Icpt   []string `json:"icpt"`
 		Strict bool     `json:"strict"`
 	} `json:"opts"`
